@@ -162,8 +162,8 @@ def run(ctx, replay=None):
     exhaustive = ['q', 'g2', 't2120'] if quick else ['q', 'q3', 'g2', 't111x', 't1120', 't2120', 't3111', 't1111', 'm2', 'w2']
     graph_cfgs = {'q': 14, 'g2': 14, 't2120': 400} if quick else \
                  {'q': 14, 'q3': 16, 'g2': 14, 't111x': 400, 't1120': 400, 't2120': 400, 't3111': 400, 't1111': 400}
-    max_paths = {'q': 1100, 'g2': 700} if quick else {'q3': 7000}
-    race_paths = {'g2': 300} if quick else {'q3': 3000}
+    max_paths = {'q': 1100, 'g2': 700} if quick else {'q3': 4000}
+    race_paths = {'g2': 300} if quick else {'q3': 2000}
     walks = {'q': 300, 'g2': 300} if quick else {'q3': 2500, 'g2': 800}
     old_cfgs = ['oldRace'] if quick else list(OLD)
     all_traces = []
